@@ -355,12 +355,7 @@ where
         info.set_dirty(true);
         info.set_last_accessed(timestamp);
         info.set_last_modified(timestamp);
-        // NOTE: Do not update the policy weight here. The policy weight in the
-        // EntryInfo is the weight that the eviction counters currently hold for the
-        // entry; it will be updated when the write op is applied (`handle_upsert`).
-        // Otherwise, removing the entry before that (eviction, expiration) would
-        // subtract a weight that has never been added.
-        let _ = policy_weight;
+        info.set_policy_weight(policy_weight);
         TrioArc::new(ValueEntry::new(value, info))
     }
 
@@ -889,14 +884,17 @@ where
         }
 
         if entry.is_admitted() {
-            // The entry has been already admitted, so treat this as an update.
-            // (`old_weight` was read when the write op was created; other ops for the
-            // key may have been applied or skipped since then, so use the weight the
-            // counters actually hold for the entry.)
-            let _ = old_weight;
-            counters.saturating_sub(0, entry.policy_weight());
-            counters.saturating_add(0, new_weight);
-            entry.entry_info().set_policy_weight(new_weight);
+            // The entry has been already admitted, so treat this as an update: bring
+            // the weight the counters hold for the entry up to the weight of its
+            // latest value. (`old_weight` and `new_weight` were read when this write
+            // op was created. Other write ops of the entry may have been created,
+            // applied or skipped since then, possibly in a different order.)
+            let _ = (old_weight, new_weight);
+            let info = entry.entry_info();
+            let latest_weight = info.policy_weight();
+            counters.saturating_sub(0, info.accounted_weight());
+            counters.saturating_add(0, latest_weight);
+            info.set_accounted_weight(latest_weight);
             deqs.move_to_back_ao(&entry);
             deqs.move_to_back_wo(&entry);
             return;
@@ -908,6 +906,8 @@ where
             Some((key, _)) => KeyHash::new(key, kh.hash),
             None => return,
         };
+        // Decide with the weight of the latest value of the entry.
+        let new_weight = entry.policy_weight();
 
         if !self.has_enough_capacity(new_weight, counters)
             && (self.has_expiry() || self.has_valid_after())
@@ -1070,7 +1070,7 @@ where
                     // its position and weight here are outdated.
                     .filter(|v| !v.is_dirty())
                 {
-                    victims.add_policy_weight(vic_entry.policy_weight());
+                    victims.add_policy_weight(vic_entry.entry_info().accounted_weight());
                     victims.add_frequency(freq, vic_elem.hash());
                     victim_nodes.push(victim);
                     retries = 0;
@@ -1117,7 +1117,7 @@ where
     ) {
         let key = Arc::clone(&kh.key);
         counters.saturating_add(1, policy_weight);
-        entry.entry_info().set_policy_weight(policy_weight);
+        entry.entry_info().set_accounted_weight(policy_weight);
         deqs.push_back_ao(
             CacheRegion::MainProbation,
             KeyHashDate::new(kh, entry.entry_info()),
@@ -1136,7 +1136,7 @@ where
     ) {
         if entry.is_admitted() {
             entry.set_admitted(false);
-            counters.saturating_sub(1, entry.policy_weight());
+            counters.saturating_sub(1, entry.entry_info().accounted_weight());
             // The following two unlink_* functions will unset the deq nodes.
             deqs.unlink_ao(&entry);
             Deques::unlink_wo(&mut deqs.write_order, &entry);
@@ -1154,7 +1154,7 @@ where
     ) {
         if entry.is_admitted() {
             entry.set_admitted(false);
-            counters.saturating_sub(1, entry.policy_weight());
+            counters.saturating_sub(1, entry.entry_info().accounted_weight());
             // The following two unlink_* functions will unset the deq nodes.
             Deques::unlink_ao_from_deque(ao_deq_name, ao_deq, &entry);
             Deques::unlink_wo(wo_deq, &entry);
@@ -1383,7 +1383,7 @@ where
             });
 
             if let Some((_k, entry)) = maybe_entry {
-                let weight = entry.policy_weight();
+                let weight = entry.entry_info().accounted_weight();
                 Self::handle_remove_with_deques(DEQ_NAME, deq, write_order_deq, entry, counters);
                 evicted = evicted.saturating_add(weight as u64);
             } else if !self.try_skip_updated_entry(&key, DEQ_NAME, deq, write_order_deq) {
